@@ -18,6 +18,23 @@ import copy
 from .core import link, names_in, txt, walk
 
 
+def _cp(node):
+    """structural copy of a syntax tree: fields and positions only (the
+    `.parent` links set by core.link are not followed)"""
+    if isinstance(node, ast.AST):
+        new = node.__class__()
+        for f in node._fields:
+            if hasattr(node, f):
+                setattr(new, f, _cp(getattr(node, f)))
+        for a in node._attributes:
+            if hasattr(node, a):
+                setattr(new, a, getattr(node, a))
+        return new
+    if isinstance(node, list):
+        return [_cp(x) for x in node]
+    return node
+
+
 def _is_simple_helper(h):
     a = h.args
     if a.vararg or a.kwarg or a.kwonlyargs or a.posonlyargs:
@@ -69,6 +86,46 @@ def _helper_of(repo, rel, cls, call):
         h = repo.func(rel, f.id, missing_ok=True)
         if h is not None:
             return h, False
+        imp = resolve_from_import(repo, rel, f.id)
+        if imp is not None:
+            try:
+                h = repo.func(imp[0], imp[1], missing_ok=True)
+            except Exception:
+                h = None
+            if h is not None:
+                return h, False
+    return None
+
+
+def resolve_from_import(repo, rel, name):
+    """(rel2, name2) when `name` is bound in module `rel` by
+    ``from <module> import name2 [as name]`` and <module> is a file of the
+    repository, else None"""
+    import posixpath
+    try:
+        tree = repo.tree(rel)
+    except Exception:
+        return None
+    for st in tree.body:
+        if not isinstance(st, ast.ImportFrom):
+            continue
+        for al in st.names:
+            if (al.asname or al.name) != name:
+                continue
+            if st.level:
+                base = posixpath.dirname(rel)
+                for _ in range(st.level - 1):
+                    base = posixpath.dirname(base)
+                mod = (st.module or "").replace(".", "/")
+                cand = posixpath.join(base, mod) if mod else base
+            else:
+                cand = (st.module or "").replace(".", "/")
+            for r2 in (cand + ".py", cand + "/__init__.py"):
+                try:
+                    repo.tree(r2)
+                    return r2, al.name
+                except Exception:
+                    continue
     return None
 
 
@@ -109,7 +166,7 @@ def _expand_call(h, is_method, call, tag):
             mapping[p] = f"{p}__{tag}"
             pre.append(ast.Assign(
                 targets=[ast.Name(id=mapping[p], ctx=ast.Store())],
-                value=copy.deepcopy(a), lineno=call.lineno, col_offset=0))
+                value=_cp(a), lineno=call.lineno, col_offset=0))
     # a parameter that is re-bound inside the helper must not clobber the
     # caller's variable
     stored = {n.id for n in walk(h) if isinstance(n, ast.Name)
@@ -119,11 +176,11 @@ def _expand_call(h, is_method, call, tag):
             mapping[p] = f"{p}__{tag}"
             pre.append(ast.Assign(
                 targets=[ast.Name(id=mapping[p], ctx=ast.Store())],
-                value=copy.deepcopy(bind[p]), lineno=call.lineno,
+                value=_cp(bind[p]), lineno=call.lineno,
                 col_offset=0))
     for loc in locals_ - set(params):
         mapping[loc] = f"{loc}__{tag}"
-    body = [copy.deepcopy(s) for s in h.body]
+    body = [_cp(s) for s in h.body]
     if body and isinstance(body[0], ast.Expr) and isinstance(
             body[0].value, ast.Constant) and isinstance(
             body[0].value.value, str):
@@ -153,7 +210,7 @@ def inline_helpers(repo, rel, func, depth=2, keep=()):
     """`keep`: helper names that are anchors of a rule and stay calls"""
     cls = getattr(func, "parent", None)
     cls = cls if isinstance(cls, ast.ClassDef) else None
-    new = copy.deepcopy(func)
+    new = _cp(func)
     counter = [0]
 
     def process(stmts, level):
@@ -217,6 +274,88 @@ def inline_helpers(repo, rel, func, depth=2, keep=()):
         return out
 
     new.body = process(new.body, 0)
+
+    # calls of pure expression helpers (body = ``return <expr>``) in any
+    # expression position
+    class ExprInline(ast.NodeTransformer):
+        def visit_FunctionDef(self, node):
+            if node is new:
+                self.generic_visit(node)
+            return node
+
+        visit_Lambda = visit_FunctionDef
+
+        def visit_Call(self, node):
+            self.generic_visit(node)
+            hh = _helper_of(repo, rel, cls, node)
+            if hh is None or hh[0].name == func.name or hh[0].name in keep:
+                return node
+            h, is_method = hh
+            body = list(h.body)
+            if body and isinstance(body[0], ast.Expr) and isinstance(
+                    body[0].value, ast.Constant) and isinstance(
+                    body[0].value.value, str):
+                body = body[1:]
+            if len(body) != 1 or not isinstance(body[0], ast.Return) \
+                    or body[0].value is None or not _is_simple_helper(h) \
+                    or h.decorator_list and not all(
+                        txt(d) == "staticmethod" for d in h.decorator_list):
+                return node
+            params = [a.arg for a in h.args.args]
+            if is_method and params:
+                params = params[1:]
+            dmap = dict(zip([a.arg for a in h.args.args][
+                len(h.args.args) - len(h.args.defaults):], h.args.defaults))
+            bind = {}
+            for p_, a_ in zip(params, node.args):
+                if isinstance(a_, ast.Starred):
+                    return node
+                bind[p_] = a_
+            if len(node.args) > len(params):
+                return node
+            for kw in node.keywords:
+                if kw.arg is None or kw.arg not in params:
+                    return node
+                bind[kw.arg] = kw.value
+            for p_ in params:
+                if p_ not in bind:
+                    if p_ in dmap:
+                        bind[p_] = dmap[p_]
+                    else:
+                        return node
+            expr = body[0].value
+            if any(isinstance(n, (ast.Lambda, ast.NamedExpr, ast.ListComp,
+                                  ast.GeneratorExp, ast.DictComp, ast.SetComp,
+                                  ast.Await, ast.Yield))
+                   for n in ast.walk(expr)):
+                return node
+            uses = {}
+            for n in ast.walk(expr):
+                if isinstance(n, ast.Name):
+                    uses[n.id] = uses.get(n.id, 0) + 1
+            for p_ in params:
+                a_ = bind[p_]
+                pure = isinstance(a_, (ast.Name, ast.Constant)) or _pure_ref(
+                    a_)
+                if not pure and uses.get(p_, 0) > 1:
+                    return node
+            if is_method and h.args.args:
+                # the receiver keeps its name only for self.<helper>
+                me = h.args.args[0].arg
+                if isinstance(node.func, ast.Attribute) and isinstance(
+                        node.func.value, ast.Name):
+                    bind[me] = ast.Name(id=node.func.value.id,
+                                        ctx=ast.Load())
+            counter[0] += 1
+            out = _Subst(bind).visit(_cp(expr))
+            for n in ast.walk(out):
+                if hasattr(n, "lineno") or isinstance(n, (ast.expr,)):
+                    n.lineno = node.lineno
+                    n.end_lineno = node.lineno
+                    n.col_offset = 0
+                    n.end_col_offset = 0
+            return out
+    new = ExprInline().visit(new)
     ast.fix_missing_locations(new)
     link(new)
     new.parent = getattr(func, "parent", None)
@@ -281,7 +420,7 @@ class _Subst(ast.NodeTransformer):
 
     def visit_Name(self, node):
         if isinstance(node.ctx, ast.Load) and node.id in self.m:
-            return copy.deepcopy(self.m[node.id])
+            return _cp(self.m[node.id])
         return node
 
     def visit_FunctionDef(self, node):
@@ -336,13 +475,13 @@ class _DictIter(ast.NodeTransformer):
             self.n += 1
             key, val = ast.Name(id=f"_key{self.n}", ctx=ast.Store()), tgt
         mapping = {}
-        base = _sub(copy.deepcopy(d), ast.Name(id=key.id, ctx=ast.Load()))
+        base = _sub(_cp(d), ast.Name(id=key.id, ctx=ast.Load()))
         if isinstance(val, ast.Name):
             mapping[val.id] = base
         elif isinstance(val, ast.Tuple) and all(
                 isinstance(e, ast.Name) for e in val.elts):
             for i, e in enumerate(val.elts):
-                mapping[e.id] = _sub(copy.deepcopy(base),
+                mapping[e.id] = _sub(_cp(base),
                                      ast.Constant(value=i))
         else:
             return node
@@ -350,7 +489,7 @@ class _DictIter(ast.NodeTransformer):
             return node
         sub = _Subst(mapping)
         node.target = ast.Name(id=key.id, ctx=ast.Store())
-        node.iter = copy.deepcopy(d)
+        node.iter = _cp(d)
         node.body = [sub.visit(s) for s in node.body]
         node.orelse = [sub.visit(s) for s in node.orelse]
         return node
@@ -424,8 +563,8 @@ def _canon_get(func):
                 op = ast.NotIn() if isinstance(node.ops[0], ast.Is) \
                     else ast.In()
                 return ast.copy_location(ast.Compare(
-                    left=copy.deepcopy(k), ops=[op],
-                    comparators=[copy.deepcopy(d)]), node)
+                    left=_cp(k), ops=[op],
+                    comparators=[_cp(d)]), node)
             self.generic_visit(node)
             return node
 
@@ -433,7 +572,7 @@ def _canon_get(func):
             if isinstance(node.ctx, ast.Load) and node.id in todo:
                 _, d, k = todo[node.id]
                 return ast.copy_location(
-                    _sub(copy.deepcopy(d), copy.deepcopy(k)), node)
+                    _sub(_cp(d), _cp(k)), node)
             return node
     return T().visit(func)
 
@@ -510,7 +649,7 @@ def _unroll(repo, rel, func, limit=40):
                             break
                         sub = _Subst(mapping)
                         for s in st.body:
-                            c = sub.visit(copy.deepcopy(s))
+                            c = sub.visit(_cp(s))
                             for n in ast.walk(c):
                                 if hasattr(n, "lineno"):
                                     n.lineno = st.lineno
@@ -531,7 +670,9 @@ def canon(repo, rel, func, keep=(), depth=2, unroll=True):
     to the canonical forms the rules are written against"""
     new = inline_helpers(repo, rel, func, depth=depth, keep=keep)
     parent = getattr(new, "parent", None)
+    new = _ifexp_to_if(new)
     new = _hoist_walrus(new)
+    new = _named_conditions(new)
     new = _canon_get(new)
     if unroll:
         new = _unroll(repo, rel, new)
@@ -559,11 +700,11 @@ def expand_bool_locals(func, expr, depth=3):
         return False
     defs = {k: a.value for k, a in single.items()
             if len(a.targets) == 1 and is_bool(a.value)}
-    cur = copy.deepcopy(expr)
+    cur = _cp(expr)
     for _ in range(depth):
         cur = _Subst(defs).visit(cur)
         if isinstance(cur, ast.Name) and cur.id in defs:
-            cur = copy.deepcopy(defs[cur.id])
+            cur = _cp(defs[cur.id])
     ast.fix_missing_locations(cur)
     return link(cur) or cur
 
@@ -615,3 +756,92 @@ def _hoist_walrus(func):
         return out
     func.body = process(func.body)
     return func
+
+
+def _ifexp_to_if(func):
+    """``x = a if c else b`` -> ``if c: x = a else: x = b`` (also for
+    ``return``), so that rules written for the statement form see it"""
+    def process(stmts):
+        out = []
+        for st in stmts:
+            for fld in ("body", "orelse", "finalbody"):
+                if hasattr(st, fld) and isinstance(getattr(st, fld), list) \
+                        and not isinstance(st, (ast.FunctionDef,
+                                                ast.ClassDef)):
+                    setattr(st, fld, process(getattr(st, fld)))
+            if isinstance(st, ast.Try):
+                for h in st.handlers:
+                    h.body = process(h.body)
+            v = getattr(st, "value", None)
+            if isinstance(st, (ast.Assign, ast.Return)) and isinstance(
+                    v, ast.IfExp):
+                def mk(val):
+                    c = _cp(st)
+                    c.value = val
+                    if isinstance(st, ast.Assign):
+                        c.targets = [_cp(t) for t in st.targets]
+                    return c
+                new = ast.copy_location(ast.If(
+                    test=v.test, body=process([mk(v.body)]),
+                    orelse=process([mk(v.orelse)])), st)
+                out.append(new)
+                continue
+            out.append(st)
+        return out
+    func.body = process(func.body)
+    return func
+
+
+def _named_conditions(func):
+    """``flag = <boolean expr>`` (bound once, operands never re-bound) used
+    as an ``if``/``while``/``assert`` test or inside one -> the expression"""
+    single = _single_assigned(func)
+    stored = set()
+    for n in walk(func):
+        if isinstance(n, (ast.Name, ast.Attribute, ast.Subscript)) \
+                and isinstance(getattr(n, "ctx", None), (ast.Store, ast.Del)):
+            stored.add(txt(n))
+    for a in func.args.args + func.args.kwonlyargs + func.args.posonlyargs:
+        pass
+    defs = {}
+    for k, a in single.items():
+        v = a.value
+        if len(a.targets) != 1:
+            continue
+        if not (isinstance(v, (ast.Compare, ast.BoolOp)) or isinstance(
+                v, ast.UnaryOp) and isinstance(v.op, ast.Not)):
+            continue
+        if any(isinstance(n, (ast.Call, ast.NamedExpr, ast.Await))
+               for n in ast.walk(v)):
+            continue
+        operands = {txt(n) for n in ast.walk(v) if isinstance(
+            n, (ast.Name, ast.Attribute, ast.Subscript))}
+        # operands may be parameters or locals bound once *before* use;
+        # anything stored elsewhere (augmented, re-bound, attribute
+        # written) blocks the rewrite
+        multi = {t for t in operands if t in stored and not (
+            t in single and t != k)}
+        if multi:
+            continue
+        defs[k] = v
+    if not defs:
+        return func
+
+    class T(ast.NodeTransformer):
+        def visit_FunctionDef(self, node):
+            if node is func:
+                self.generic_visit(node)
+            return node
+
+        def _test(self, node):
+            for _ in range(3):
+                node.test = _Subst(defs).visit(node.test)
+                if isinstance(node.test, ast.Name) and node.test.id in defs:
+                    node.test = _cp(defs[node.test.id])
+            self.generic_visit(node)
+            return node
+        visit_If = _test
+        visit_While = _test
+        visit_Assert = _test
+        visit_IfExp = _test
+    return T().visit(func)
